@@ -21,10 +21,11 @@ LEVEL = {
             'leaves (all capacities, tick rates, run lengths, timing functions). Correspondence: state-aware command fuzzer '
             'against Executor/ResourcePool, projection on resources and list membership.', '6 C03'),
     'C04': ('proof', 'Theorems in exact arithmetic (reported usage = sum of running containers, within allocation, within '
-            'capacity, every kill justified, no kill without overcommit for a container within its allocation) plus a '
-            'float-faithful executable model (rounding where Python rounds, Neumaier sum) compared bit-exactly with the '
-            'implementation. Partial: the size of IEEE drift between reconciles is measured by the monitor, not proved.',
-            '6 C04'),
+            'capacity, every kill justified, no kill without overcommit for a container within its allocation) and about the '
+            'float-faithful model (rnd64): the incrementally updated usage drifts from the exact sum by at most '
+            'E(1+k/2^52) + k(n+3)M/2^52 after k container-ticks since the last reconcile, the Neumaier reconcile is within '
+            '3 ulp-units of the exact sum (constant 3 instead of the optimal 1: partial), numeric corollaries justify the '
+            '1e-6 GB monitor tolerance; the executable model is compared bit-exactly with the implementation.', '6 C04'),
     'C09': ('proof', 'Ledger theorems over arbitrary command sequences (one container per accepted assignment, one outcome per '
             'container, results once and in the tick the container leaves, unknown pools rejected, shape of success/failure '
             'results); correspondence with multi-pool command histories including out-of-range pools.', '6 C09'),
@@ -35,8 +36,10 @@ LEVEL = {
     'C11': ('proof', 'Theorems about the OOM killer as a function, for every container list, capacity and rounding: candidates '
             'are exactly unfinished containers using memory, stable descending order by the computed score, victims are a '
             'prefix (no survivor with a strictly higher score), every kill happened while usage exceeded capacity, loop '
-            'stops as soon as usage fits; correspondence on overcommitted command histories. Partial: float near-ties of '
-            'scores are judged on the computed (rounded) score.', '6 C11'),
+            'stops as soon as usage fits; for the float code (rnd64): no container is killed while a surviving candidate has '
+            'an exact score larger by a relative gap above 5*2^-53, computed scores are monotone in usage and antitone in '
+            'allocation, and a kernel-computed witness shows the gap is needed; correspondence on overcommitted histories.',
+            '6 C11'),
 }
 
 LEVEL.update({
@@ -51,19 +54,20 @@ LEVEL.update({
             'per-class partition, latency lists, completed-once) for every run of the model loop; correspondence of whole '
             'runs incl. the returned SimulatorStats for all shipped schedulers. Partial: numpy mean/percentile rounding '
             '(tolerance 1e-9).', '6 C06'),
-    'C08': ('proof', 'Closed-loop theorems (the run reaches its last tick without an error, for all well-formed DAG workloads, '
-            'pool counts and positive sizes, tick rates, non-empty timing scripts): naive and the starter template in both '
-            'container modes, overbook with overcommit, priority-pool with multi-operator containers, priority with '
-            'single-operator containers; for priority with multi-operator containers the run-level theorem excludes every '
-            'error except those raised inside a container tick (partial; closed loop decided by whole-run correspondence). '
-            'Invariants over all reachable simulator states; per-round admissibility; totality of the statistics epilogue. '
-            'One recorded finding (priority-pool in single-operator mode, with its witness in the model).', '6 C08'),
+    'C08': ('proof', 'Closed-loop theorems for every shipped scheduler: for all well-formed DAG workloads, pool counts and '
+            'sizes, tick rates and non-empty timing scripts the run reaches its last tick without an error - naive and the '
+            'starter template (both container modes), overbook with overcommit, priority (both modes), priority-pool with '
+            'multi-operator containers (positive pool sizes; necessity of the extra hypotheses shown by kernel-computed '
+            'witnesses). Invariants over all reachable simulator states; per-round admissibility; totality of the statistics '
+            'epilogue. One recorded finding (priority-pool in single-operator mode, with its witness in the model). Outside '
+            'the theorems: CLI/TOML parameter handling and numpy statistics (correspondence).', '6 C08'),
     'C12': ('proof', 'Per-round contracts of the priority policy from every queue/pool state (scan is a queue prefix, stops '
             'only on depletion, strict class order, work conservation w.r.t. the post-batch snapshot, suspension rules, '
-            'suspended work re-offered) and run-level theorems over every reachable simulator state (no command is ever '
-            'refused by the executor, suspension batches duplicate-free, queue well-formedness; in single-operator mode no '
-            'operator queued twice and no ready pending operator lost); correspondence on contended runs with preemption; '
-            'order / work-conservation / no-suspension clauses also monitored on priority-pool runs.', '6 C12'),
+            'suspended work re-offered) and run-level theorems over every reachable simulator state in both container modes '
+            '(no command is ever refused by the executor, suspension batches duplicate-free, one holder per pipeline: no '
+            'operator held twice, no ready pending operator lost; a FAILED retry that does not fit is dropped - witness); '
+            'correspondence on contended runs with preemption; order / work-conservation / no-suspension clauses also '
+            'monitored on priority-pool runs.', '6 C12'),
     'C14': ('proof', 'Cell-level theorems for all row lists / all well-formed pipelines: read(write ps) = ps, write(read rows) '
             '= rows for writer-format files, every listed malformation refused, acceptance iff the rules hold; '
             'correspondence through the real csv reader/writer incl. malformed and benign variations. Partial: csv module '
@@ -115,8 +119,10 @@ LEVEL.update({
 })
 
 NOTES = {
-    'C04': 'exact-arithmetic theorems; float drift measured (tolerance 1e-6 GB); memory demands are Python floats',
-    'C11': 'score compared as computed by the code (two float operations); monitor ignores relative score gaps < 1e-9',
+    'C04': 'exact-arithmetic theorems plus float theorems (drift of the reported usage bounded by C04_float_drift_bound, '
+           'reconcile error by C04_reconcile_error_bound with constant 3 instead of the optimal 1); memory demands are Python floats',
+    'C11': 'score compared as computed by the code (two float operations); rounding cannot reorder scores whose exact '
+           'values differ by a relative gap above 5*2^-53 (theorem); monitor ignores relative score gaps < 1e-9',
 }
 
 TECH = 'Coq model + theorems; bridge obligations regenerated from source; correspondence (vm_compute + extracted OCaml) vs implementation'
